@@ -281,6 +281,9 @@ def parseToks (ts : List PTok) : Option (List Ast) :=
   | some (ss, [.eof]) => some ss
   | _ => none
 
+/-- The implementation additionally refuses syntax trees higher than 2000 levels (deeply nested brackets,
+    chains of thousands of operators) so that code generation cannot exhaust the stack; the model has no such
+    limit. Inputs of the correspondence checks stay far below it. -/
 def parse (reg : Registry) (s : List B) : Option (List Ast) := parseToks (ptoks reg s)
 
 end Sqf
